@@ -22,6 +22,9 @@ RULE = ("random labelled arrays with weights on sub/supersets of the data dims, 
         "w1+w2 (equal masks), unit weights, explicit broadcast; distinct by hash of (function, inputs, relation); non-trivial = result finite somewhere")
 
 
+# counters that every complete run must have incremented (harness self-check, see core.run_check)
+EXPECT_COUNTS = ['fn:', 'recipe:', 'mask_weights', 'nan_weight', 'zero_d_weight']
+
 def recipe_weights(ctx):
     """the weight relations on every weight-accepting public function, through call recipes (implementation only)"""
     import recipes
@@ -41,6 +44,7 @@ def recipe_weights(ctx):
                 vals = w.values.copy()
                 vals.flat[rng.randrange(vals.size)] = np.nan
                 w = w.copy(data=vals)
+                ctx.count("nan_weight")
             kw0 = {}
             if rc.dims_kw and it % 3 != 0 and rng.random() < 0.7:      # every third pass keeps the default request (reduce everything)
                 sub = [d for d in dd if rng.random() < 0.5]
@@ -77,6 +81,7 @@ def recipe_weights(ctx):
             # a weight given as a 0-d array acts like the constant it holds
             c0 = rng.choice([0.5, 2.0, 3.0])
             r0, ru = call(xr.DataArray(c0)), call(None)
+            ctx.count("zero_d_weight")
             if r0[0] == "ok" and ru[0] == "ok":
                 ok, why = scorelib.same_value(r0[1], ru[1] * c0 if rc.kind == "mean" else ru[1])
                 if not ok:
@@ -92,6 +97,7 @@ def recipe_weights(ctx):
                 for _ in range(rng.randint(1, max(1, w.size // 2))):
                     mv.flat[rng.randrange(mv.size)] = np.nan
                 wm = w.copy(data=mv)
+                ctx.count("mask_weights")
                 xs_b = [xs[0].where(wm.notnull()).transpose(*xs[0].dims)] + list(xs[1:])
                 km = dict(kw0)
                 rb = core.call_impl(rc.call, xs_b, **km)
